@@ -4,4 +4,6 @@ var verifHarnesses = map[string]func(){
 	"VerifC18PosMapRoundTrip": VerifC18PosMapRoundTrip,
 	"VerifC18PosMapHostile":   VerifC18PosMapHostile,
 	"VerifC06StreamDB":        VerifC06StreamDB,
+	"VerifC20Invalid":         VerifC20Invalid,
+	"VerifC13ForwardedTx":     VerifC13ForwardedTx,
 }
